@@ -590,8 +590,180 @@ def emit_contracts():
     return cs
 
 
+# ---- compile(): loop generation ----------------------------------------------------------------------------------------------
+
+def compile_fragment():
+    """the statements of the REAL evaluable.compile that decide compile_parallel and generate the loops (selected by what they
+    assign/iterate, re-read on every run): `compile_parallel = ...`, `for loop_id, ... in sorted(loop_length_index.items() ...)`,
+    and the statements that follow it up to `assert not blocks`"""
+    import ast
+    f = extract.get('evaluable:compile')
+    body = f.node.body
+    par = [st for st in body if isinstance(st, ast.Assign) and any(isinstance(t, ast.Name) and t.id == 'compile_parallel' for t in st.targets)]
+    loops = [i for i, st in enumerate(body) if isinstance(st, ast.For) and 'loop_length_index' in ast.unparse(st.iter)]
+    if len(par) != 1 or len(loops) != 1:
+        raise Unsupported('compile(): the compile_parallel assignment / the loop-generating for statement was not found')
+    i = loops[0]
+    tail = []
+    for st in body[i + 1:]:
+        if isinstance(st, ast.Assert) or (isinstance(st, ast.Assign) and any(isinstance(t, ast.Name) and t.id == 'main' for t in st.targets)):
+            tail.append(st)
+        else:
+            break
+    return f, par[0], [body[i]] + tail
+
+
+def concrete_sorted(ctx, it, key=None, reverse=False):
+    """sorted() on concrete items with concrete keys (the key function is run by the interpreter): Python's own sorted"""
+    xs = ops.iterate(ctx, it)
+    ks = [ctx.interp.call(key, [x], {}) if key is not None else x for x in xs]
+    if ops.has_sym(ks) or any(isinstance(k, Sym) for k in ks) or not isinstance(reverse, bool):
+        raise Unsupported('sorted with symbolic keys')
+    order = sorted(range(len(xs)), key=lambda n: ks[n], reverse=reverse)
+    return [xs[n] for n in order]
+
+
+LOOP_NESTS = {
+    'one-loop': [(0,)],
+    'two-in-sequence': [(0,), (1,)],
+    'nested': [(0,), (0, 0)],
+    'nested-twice-and-sequence': [(0,), (0, 0), (0, 0, 0), (0, 1), (1,), (1, 0)],
+    'three-deep-second': [(0,), (1,), (1, 0), (1, 1), (1, 1, 0), (2,)],
+}
+
+
+class LoopGen(InProc, Contract):
+    prop = PROP
+    fn = 'evaluable:compile'
+
+    def __init__(self, name):
+        self.nest = name
+        self.label = 'loop-generation|' + name
+        self.bounded = 'loop nest fixed to the loop ids %s; maxprocs and stats symbolic' % (LOOP_NESTS[name],)
+
+    def setup(self, cx):
+        concrete_format_hooks(cx)
+        m, stats = cx.int('maxprocs'), cx.bool('stats')
+        cx.assume(m >= 1)  # parallel.maxprocs contract (contracts/c16_fork.py)
+        S = State(m=m, stats=stats, counter=[0])
+        ids = {(0,)}
+        for L in self.loop_ids():
+            ids.add((*L, 0))
+            ids.add((*L[:-1], L[-1] + 1))
+        S.marker = {}
+        S.blocks = {}
+        for bid in sorted(ids):
+            mk = St('Exec', E('marker:%s' % (bid,)))
+            S.marker[id(mk)] = bid
+            S.blocks[bid] = Blk([mk])
+        S.body_of = {L: S.blocks[(*L, 0)] for L in self.loop_ids()}
+        S.length_ev = {L: Ev('Constant') for L in self.loop_ids()}
+        S.index_var = {L: V('i' + '_'.join(map(str, L))) for L in self.loop_ids()}
+        S.lli = {L: (S.length_ev[L], S.index_var[L]) for L in self.loop_ids()}
+        S.py_length = {}
+
+        def compile_(ctx, s, ev):
+            for L, e in S.length_ev.items():
+                if e is ev:
+                    S.py_length[L] = E('length:%s' % (L,))
+                    return S.py_length[L]
+            raise Unsupported('builder.compile of something that is not a loop length')
+
+        def new_var(ctx, s):
+            S.counter[0] += 1
+            return V('v%d' % (100 + S.counter[0]))
+        S.builder = SObj('_BlockTreeBuilder', methods=dict(compile=compile_, new_var=new_var))
+        S.globals = {'_pyast': PyAstB(), 'parallel': NS(maxprocs=NS(current=SInt(m))), 'sorted': concrete_sorted}
+        return S
+
+    def loop_ids(self):
+        return LOOP_NESTS[self.nest]
+
+    def body(self, cx, S, call):
+        from pyvc.interp import Env
+        f, par_stmt, stmts = compile_fragment()
+        it = cx.interp
+        it.index_loops(f.node)
+        env = Env()
+        env.vars.update(loop_length_index=S.lli, blocks=S.blocks, builder=S.builder, stats=SBool(S.stats))
+        it.block([par_stmt], env)
+        S.compile_parallel = env.lookup('compile_parallel')
+        it.block(stmts, env)
+        return env.lookup('main')
+
+    def raises(self, cx, S, e):
+        return False
+
+    def walk(self, S, item, stack, out):
+        """in program order: ('marker', block id, enclosing loops) and ('loop', with-statement, for-statement, enclosing loops)"""
+        if isinstance(item, Blk):
+            for it in item.items:
+                self.walk(S, it, stack, out)
+        elif isinstance(item, St) and item.kind == 'With':
+            body = item.parts[1] if len(item.parts) > 1 else item.kw.get('body')
+            if isinstance(body, St) and body.kind == 'ForLoop':
+                L = [l for l, v in S.index_var.items() if len(body.parts) == 3 and body.parts[0] == v]
+                out.append(('loop', item, body, tuple(stack), L[0] if L else None))
+                self.walk(S, body.parts[2] if len(body.parts) == 3 else None, stack + [L[0] if L else None], out)
+            else:
+                out.append(('other', item, tuple(stack)))
+        elif isinstance(item, St) and id(item) in S.marker:
+            out.append(('marker', S.marker[id(item)], tuple(stack)))
+        else:
+            out.append(('other', item, tuple(stack)))
+
+    def ensures(self, cx, S, result):
+        B = z3.BoolVal
+        ev = []
+        self.walk(S, result, [], ev)
+        loops = [e for e in ev if e[0] == 'loop']
+        markers = [e for e in ev if e[0] == 'marker']
+        par = z3.And(S.m > 1, z3.Not(S.stats))
+
+        def kind(w):
+            ctxv = w.parts[0] if w.parts else w.kw.get('item')
+            if is_call_of(ctxv, 'parallel', 'ctxrange'):
+                return 'ctxrange', ctxv
+            if is_call_of(ctxv, 'treelog', 'iter', 'percentage'):
+                return 'plain', ctxv
+            return 'other', ctxv
+        forked = [e for e in loops if kind(e[1])[0] == 'ctxrange']
+        nest_ok = not [e for e in ev if e[0] == 'other'] and not S.blocks \
+            and [e[1] for e in markers] == sorted(S.marker.values()) \
+            and all(list(e[2]) == [bid[:k] for k in range(1, len(bid))] for e in markers for bid in [e[1]]) \
+            and sorted(e[4] for e in loops if e[4] is not None) == sorted(self.loop_ids()) and len(loops) == len(self.loop_ids()) \
+            and all(list(e[3]) == [e[4][:k] for k in range(1, len(e[4]))] for e in loops if e[4] is not None)
+        own = True
+        for _, w, f, stack, L in loops:
+            k, c = kind(w)
+            as_ = w.kw.get('as_')
+            length = S.py_length.get(L)
+            it_ok = isinstance(as_, V) and is_call_of(f.parts[1], 'map') and len(f.parts[1].children) == 3 and f.parts[1].children[2] == as_ and as_ not in S.index_var.values() \
+                and sum(1 for e in loops if e[1].kw.get('as_') == as_) == 1 and f.parts[2] is S.body_of.get(L)
+            if k == 'ctxrange':
+                len_ok = len(c.children) == 3 and c.children[2] is length
+            elif k == 'plain':
+                r = c.children[2] if len(c.children) == 3 else None
+                len_ok = is_call_of(r, 'range') and len(r.children) == 2 and r.children[1] is length
+            else:
+                len_ok = False
+            own = own and it_ok and len_ok and length is not None
+        return [('fork-only-for-outermost-loops', B(all(len(e[3]) == 0 and e[4] is not None and len(e[4]) == 1 for e in forked))),
+                ('outermost-loops-forked-iff-several-processes-and-no-stats', z3.And(*[B(kind(e[1])[0] == 'ctxrange') == par for e in loops if len(e[3]) == 0]) if loops else B(False)),
+                ('nested-loops-iterate-a-plain-range', B(all(kind(e[1])[0] == 'plain' for e in loops if len(e[3]) > 0))),
+                ('loop-nest-follows-the-block-ids', B(bool(nest_ok))),
+                ('each-loop-iterates-its-own-range-over-its-own-length-and-body', B(bool(own)))]
+
+    def replay(self, ob):
+        return _native('run_loops(%r)' % ob.clause)
+
+
+def loopgen_contracts():
+    return [LoopGen(n) for n in LOOP_NESTS]
+
+
 def contracts():
-    return alloc_contracts() + emit_contracts()
+    return alloc_contracts() + emit_contracts() + loopgen_contracts()
 
 
 def extra_obligations(tier, seed):
